@@ -729,6 +729,64 @@ async fn run_turn(rec: &Value, rng: &mut Rng, out: &mut Out) {
                 _ => out.rows.push(json!({"type": "toolerror", "detail": "allocate task did not finish"})),
             }
         }
+        "recvchan" => {
+            // server -> client: a ChannelData message (padded on TCP) immediately followed by a STUN
+            // message; the client must hand out exactly header + data, and stay in sync
+            let f = &rec["frame"];
+            let mut cd = Vec::new();
+            cd.extend_from_slice(&chan.to_be_bytes());
+            cd.extend_from_slice(&(data.len() as u16).to_be_bytes());
+            cd.extend_from_slice(&data);
+            let unpadded = cd.clone();
+            cd.extend(std::iter::repeat(0u8).take(f["pad"].as_u64().unwrap() as usize));
+            let mut follow = Message::new();
+            follow.typ = MessageType::new(stun::message::METHOD_REFRESH, stun::message::CLASS_SUCCESS_RESPONSE);
+            follow.transaction_id = stun::agent::TransactionId([7u8; 12]);
+            follow.write_header();
+            ref_add(&mut follow, "LIFETIME", &Val::U32(600));
+            stun::fingerprint::FINGERPRINT.add_to(&mut follow).unwrap();
+            if let Some(s) = stream.as_mut() {
+                use tokio::io::AsyncWriteExt;
+                let mut both = cd.clone();
+                both.extend_from_slice(&follow.raw);
+                let _ = s.write_all(&both).await;
+                // end of stream after the two messages: a reader that lost framing fails instead of waiting
+                let _ = s.shutdown().await;
+            } else {
+                // the client has to speak first for the server to learn its address
+                let _ = client.verif_send(&[0x40, 0x00, 0x00, 0x00]).await;
+                let mut b = [0u8; 64];
+                let Ok(Ok((_, from))) = tokio::time::timeout(Duration::from_secs(20), udp.recv_from(&mut b)).await else {
+                    out.rows.push(json!({"type": "toolerror", "detail": "no datagram from the TURN client"}));
+                    return;
+                };
+                let _ = udp.send_to(&cd, from).await;
+                let _ = udp.send_to(&follow.raw, from).await;
+            }
+            let mut buf = vec![0u8; 4096];
+            let first = tokio::time::timeout(Duration::from_secs(20), client.verif_recv(&mut buf)).await;
+            let got1 = match first {
+                Ok(Ok(n)) => buf[..n].to_vec(),
+                Ok(Err(e)) => {
+                    out.div(part, "ChannelDataFraming", json!({"tr": tr, "direction": "receive", "error": e.to_string()}), rec);
+                    return;
+                }
+                Err(_) => {
+                    out.div(part, "ChannelDataFraming", json!({"tr": tr, "direction": "receive", "error": "the client did not deliver the ChannelData message"}), rec);
+                    return;
+                }
+            };
+            if got1 != unpadded {
+                out.div(part, "ChannelDataFraming", json!({"tr": tr, "direction": "receive", "expected_len": unpadded.len(), "observed_len": got1.len()}), rec);
+                return;
+            }
+            let second = tokio::time::timeout(Duration::from_secs(20), client.verif_recv(&mut buf)).await;
+            match second {
+                Ok(Ok(n)) if buf[..n] == follow.raw[..] => {}
+                other => out.div(part, "ChannelDataFraming", json!({"tr": tr, "direction": "receive", "what": "the message after a ChannelData message is not delivered intact",
+                    "observed": format!("{:?}", other.map(|r| r.map_err(|e| e.to_string())).map_err(|_| "timeout"))}), rec),
+            }
+        }
         other => panic!("turn op {other}"),
     }
     out.count("turn_items");
